@@ -18,7 +18,7 @@ def draw_axiom(draw, cfg, depth=2):
 
 
 @st.composite
-def module_descs(draw, with_apps=True, max_depth=3, sym_pool=('a', 'b', 'c', 'A', ' a', 'a ', 'f(x)'), rich=False):
+def module_descs(draw, with_apps=True, max_depth=3, sym_pool=('a', 'b', 'c', 'A', ' a', 'a ', 'f(x)'), rich=False, allow_taut=True):
     """A module description: own axioms, imports (tree with possible shared sub-modules = diamonds), claims."""
     names = list(draw(st.lists(st.sampled_from(sym_pool), min_size=1, max_size=len(sym_pool), unique=True)))
     cfg = sym_cfg(names)
@@ -56,7 +56,7 @@ def module_descs(draw, with_apps=True, max_depth=3, sym_pool=('a', 'b', 'c', 'A'
             mname, i = draw(st.sampled_from(all_axioms))
             claims.append({'kind': 'axiom', 'module': mname, 'index': i})
         elif with_apps:
-            kind = draw(st.sampled_from(['app'] * 7 + ['univgen'] * 2 + ['quant'] * 2 + ['taut'])) if rich else 'app'
+            kind = draw(st.sampled_from(['app'] * 7 + ['univgen'] * 2 + ['quant'] * 2 + (['taut'] if allow_taut else []))) if rich else 'app'
             if kind in ('app', 'univgen'):
                 app = S.draw_app(draw, cfg, depth=draw(st.integers(1, 2)), entries=S.light_catalogue(), arg_depth=1)
                 c = {'kind': kind, 'app': app.to_json()}
